@@ -23,7 +23,7 @@ class World(object):
     """one application per output family, reused for all its cases"""
 
     def __init__(self, fam, secret):
-        from spyne import Application, Service, srpc, Integer, Unicode, Fault
+        from spyne import Application, Service, srpc, Integer, Unicode, Fault, Iterable
         from spyne.protocol.soap import Soap11, Soap12
         from spyne.protocol.xml import XmlDocument
         from spyne.protocol.json import JsonDocument
@@ -45,6 +45,11 @@ class World(object):
             def g(s, n):
                 pend[0]()
                 return 'RETVAL-g', 424242
+
+            @srpc(Integer, _returns=Iterable(Integer))
+            def gen(a):
+                pend[0]()
+                yield 424242
         outp = {'xml': XmlDocument, 'soap11': Soap11, 'soap12': Soap12, 'json': JsonDocument,
                 'yaml': YamlDocument, 'msgpack': MessagePackDocument, 'mprpc': MessagePackRpc,
                 'http': HttpRpc}[fam]()
@@ -63,7 +68,7 @@ class World(object):
                 self.capp = None
 
     def call(self, meth):
-        qs = 'a=1' if meth == 'f' else 's=x&n=2'
+        qs = 's=x&n=2' if meth == 'g' else 'a=1'
         env = {'REQUEST_METHOD': 'GET', 'PATH_INFO': '/' + meth, 'QUERY_STRING': qs,
                'wsgi.input': io.BytesIO(b''), 'wsgi.url_scheme': 'http', 'SERVER_NAME': 'x', 'SERVER_PORT': '80'}
         st = []
@@ -82,10 +87,11 @@ def make_raiser(case, secret):
     box = {}
     if f['kind'] == 'fault':
         cls = f['cls']
-        if cls == 'toolong': exc = RequestTooLongError()
-        elif cls == 'notfound': exc = ResourceNotFoundError('thing')
-        elif cls == 'notallowed': exc = RequestNotAllowed('nope')
-        elif cls == 'auth': exc = InvalidCredentialsError()
+        sub = (lambda base: type('My' + base.__name__, (base,), {})) if f.get('sub') else (lambda base: base)
+        if cls == 'toolong': exc = sub(RequestTooLongError)()
+        elif cls == 'notfound': exc = sub(ResourceNotFoundError)('thing')
+        elif cls == 'notallowed': exc = sub(RequestNotAllowed)('nope')
+        elif cls == 'auth': exc = sub(InvalidCredentialsError)()
         else:
             code = pool.code_str(f['code'])
             base = Fault
